@@ -15,6 +15,8 @@ impl Src {
     pub fn i128(&mut self) -> i128 { kani::any() }
     pub fn u8(&mut self) -> u8 { kani::any() }
     pub fn bool(&mut self) -> bool { kani::any() }
+    /// an i64 in lo..=hi
+    pub fn small(&mut self, lo: i64, hi: i64) -> i64 { let v: i64 = kani::any(); kani::assume(lo <= v && v <= hi); v }
 }
 
 #[cfg(not(kani))]
@@ -86,6 +88,18 @@ impl Src {
     pub fn i128(&mut self) -> i128 { self.take(16, 128, "i128") as i128 }
     pub fn u8(&mut self) -> u8 { self.take(1, 8, "u8") as u8 }
     pub fn bool(&mut self) -> bool { self.take(1, 1, "bool") & 1 == 1 }
+    /// an i64 in lo..=hi (uniform in the witness search; replayed bytes are reduced into the range)
+    pub fn small(&mut self, lo: i64, hi: i64) -> i64 {
+        let span = (hi - lo + 1) as u64;
+        match self {
+            Src::Rng { .. } => {
+                let v = lo + (self.next_raw() % span) as i64;
+                if let Src::Rng { raw, pub_log, .. } = self { raw.push((v as u64).to_le_bytes().to_vec()); pub_log.push(format!("i64={v}")); }
+                v
+            }
+            Src::Bytes { .. } => { let v = self.take(8, 64, "i64") as u64 as i64; if v < lo || v > hi { lo + (v.rem_euclid(span as i64)) } else { v } }
+        }
+    }
 }
 
 /// precondition of the contract under check
